@@ -163,6 +163,18 @@ func c18GenCodes(s Src) c18Case {
 		if sl.n != root {
 			op.Steps = c02IndexedSteps(sl.n, 0xffff)
 		}
+		// a repeated code element: the same valid code added twice with another in between,
+		// then the last entry deleted or replaced by its index - every entry is its own element
+		if f := fieldByJSON(sl.n.Msg.ProtoReflect().Descriptor(), sl.name); f != nil && f.IsList() && s.Prob(50) {
+			have := len(sl.n.Kids[sl.name])
+			a, b := op, op
+			a.Seed = 4*(1+s.Intn(500)) + 1 // valid codes (not ≡ 0 mod 4)
+			b.Seed = a.Seed + 1
+			last := append(append([]step{}, op.Steps...), step{Name: sl.name, Idx: have + 2})
+			fin := c18Op{Op: pickOne(s, []string{"delete", "delete", "replace"}), Steps: last, Value: "sibling", Seed: b.Seed, Pkg: s.Prob(20)}
+			c.Ops = []c18Op{a, b, a, fin}
+			return c
+		}
 	default:
 		return c
 	}
